@@ -14,7 +14,7 @@ CONSTANTS
   MaxSnap = 0
   Keeps = {0}
   Eager = FALSE
-INVARIANTS TypeOK C18_ControllerDispatches C18_IdContent C18_NoSkip C18_FirstOrder C18_LPSound I_DispAboveLP NoPanic
+INVARIANTS TypeOK C18_ControllerDispatches C18_IdleMeansPublished C18_IdContent C18_NoSkip C18_FirstOrder C18_LPSound I_DispAboveLP NoPanic
 PROPERTIES StepsOK
 VIEW MCView
 CHECK_DEADLOCK FALSE
